@@ -39,7 +39,28 @@ fn glue_repaired_is_fixed_point(src: &str, defs: &Defs) -> bool {
             padded.push(' ');
             padded.push_str(&src[l.b..l.e]);
             // an argument list directly behind the name stays attached to it
-            if i + 1 < lx.len() && &src[lx[i + 1].b..lx[i + 1].e] == "(" {
+            // (only a list that is closed, and that holds no further directive / usage)
+            let closed = {
+                let mut depth = 0i32;
+                let mut ok = false;
+                for l2 in &lx[i + 1..] {
+                    let t = &src[l2.b..l2.e];
+                    if l2.k == K::Bt {
+                        break;
+                    }
+                    if l2.k == K::Punct && t == "(" {
+                        depth += 1;
+                    } else if l2.k == K::Punct && t == ")" {
+                        depth -= 1;
+                        if depth == 0 {
+                            ok = true;
+                            break;
+                        }
+                    }
+                }
+                ok
+            };
+            if closed && i + 1 < lx.len() && &src[lx[i + 1].b..lx[i + 1].e] == "(" {
                 let mut depth = 0i32;
                 let mut j = i + 1;
                 while j < lx.len() {
